@@ -1,26 +1,71 @@
 #!/usr/bin/env python3
-"""Print markdown tables for DESIGN.md: (a) per-property status from evidence/ + tools/props.d,
-(b) seeded changes and which check catches which (seeded/*/meta.json)."""
+"""Regenerate the generated parts of DESIGN.md (between the GENERATED markers):
+ - section 6A: per-property as-built summary from tools/props.d + evidence + Props files
+ - section 12: seeded changes and reverted fixes, which check catches which."""
 import glob, json, os, re
 D = os.path.dirname(os.path.dirname(os.path.abspath(__file__)))
-print('### Per-property status (from the last committed evidence)\n')
-print('| id | theorems closed | quick cases | non-trivial | quick wall (s) | open findings |')
-print('|---|---|---|---|---|---|')
 known = json.load(open(os.path.join(D, 'known_findings.json')))
+out = []
+out.append('### 6A.1 Status table (from the last committed evidence, quick tier)\n')
+out.append('| id | theorems closed | cases | distinct non-trivial | wall (s) | open findings |')
+out.append('|---|---|---|---|---|---|')
 for f in sorted(glob.glob(os.path.join(D, 'evidence', 'C*.json'))):
-    e = json.load(open(f)); c = e['coverage']
-    pid = e['property_id']
+    e = json.load(open(f)); c = e['coverage']; pid = e['property_id']
     of = sorted({k['id'] for k in known['findings'] if k['property'] == pid})
-    print('| %s | %d/%d | %d | %d | %.0f | %s |' % (pid, c['discharged'], c['obligations'], c['evaluations'],
-          c['distinct_nontrivial'], e['wall_s'], ', '.join(of) or '—'))
-print('\n### Seeded changes (independent sub-agents; each confirmed: demo fails with / passes without, suite unchanged)\n')
-print('| seed | property | what it changes / needs | caught by |')
-print('|---|---|---|---|')
+    out.append('| %s | %d/%d | %d | %d | %.0f | %s |' % (pid, c['discharged'], c['obligations'], c['evaluations'],
+               c['distinct_nontrivial'], e['wall_s'], ', '.join(of) or '—'))
+out.append('\n### 6A.2 What is proved and checked, per property (text of `tools/props.d/*.json`, which also feeds MANIFEST.json)\n')
+for f in sorted(glob.glob(os.path.join(D, 'tools', 'props.d', 'C*.json'))):
+    pid = os.path.basename(f)[:-5]
+    p = json.load(open(f))
+    src = os.path.join(D, 'coq', 'Props', pid + '.v')
+    txt = re.sub(r'\(\*.*?\*\)', '', open(src).read(), flags=re.S) if os.path.exists(src) else ''
+    thms = re.findall(r'^\s*(?:Theorem|Lemma|Corollary)\s+(\w+)', txt, flags=re.M)
+    stm = re.findall(r'^\s*Definition\s+(\w+_statement)', txt, flags=re.M)
+    out.append('**%s.** %s\n' % (pid, p.get('text', '').strip()))
+    out.append('*Trusted / modelled-not-verified / outside the quantifier:* %s\n' % p.get('note', '').strip())
+    out.append('*Theorems in `coq/Props/%s.v` (%d):* %s%s\n' % (pid, len(thms), ', '.join('`%s`' % t for t in thms),
+               ('. *Left as statements (not proved):* ' + ', '.join('`%s`' % s for s in stm)) if stm else ''))
+gen6 = '\n'.join(out)
+
+out = []
+out.append('### 12.1 Seeded changes\n')
+out.append('Each row is a change written by an independent sub-agent that saw only the property text and a scratch '
+           'worktree. Every one was confirmed by `tools/confirm_seed.sh` (demo passes on the clean tree, fails with the '
+           'patch; the test suite still shows 182 passed / the same 3 environment failures) and then run through '
+           '`tools/seed_matrix.py` (= the property\'s quick check against a scratch worktree with the patch applied). '
+           'Patch, demonstration and meta.json are in `seeded/<seed>/`.\n')
+out.append('| seed | breaks | site and what it needs to manifest | caught by |')
+out.append('|---|---|---|---|')
 def nat(s):
     m = re.match(r'(.*?)(\d+)-(\d+)$', s)
-    return (m.group(1), int(m.group(2)), int(m.group(3))) if m else (s, 0, 0)
+    return (int(m.group(2)), int(m.group(3))) if m else (0, 0)
 for d in sorted(glob.glob(os.path.join(D, 'seeded', 'C*')), key=lambda x: nat(os.path.basename(x))):
     m = json.load(open(os.path.join(d, 'meta.json')))
     note = ' '.join(m.get('needs_to_manifest', '').split())
-    note = re.sub(r'\|', '/', note)[:230]
-    print('| %s | %s | %s | %s |' % (m['id'], m['breaks_property'], note, ', '.join(m.get('caught_by') or []) or '**missed**'))
+    note = re.sub(r'^(Change|C\d\d ?/ ?change|Seed)\s*\d*\s*(\(C\d\d\))?\s*[-—:]*\s*', '', note, flags=re.I)
+    note = note.replace('|', '/')[:260]
+    out.append('| %s | %s | %s… | %s |' % (m['id'], m['breaks_property'], note, ', '.join(m.get('caught_by') or []) or '**missed**'))
+rm = os.path.join(D, 'notes', 'revert_matrix.txt')
+if os.path.exists(rm):
+    out.append('\n### 12.2 Reverted fixes\n')
+    out.append('Every `fix:` commit of /repo was reverted on a scratch worktree (`seeded/revert_<hash>/patch.diff`) and the '
+               'owning property\'s quick check run against it (`tools/revert_matrix.sh`):\n')
+    out.append('| commit | check | VIOLATION lines | defect |')
+    out.append('|---|---|---|---|')
+    for l in open(rm):
+        m = re.match(r'(\w+) (C\d\d) violations=(\d+) (exit=\d+)? ?:: (.*)', l.strip())
+        if m:
+            out.append('| %s | %s | %s | %s |' % (m.group(1), m.group(2), m.group(3), m.group(5)))
+gen12 = '\n'.join(out)
+
+p = os.path.join(D, 'DESIGN.md')
+s = open(p).read()
+for tag, gen in (('6A', gen6), ('12', gen12)):
+    b, e = '<!-- BEGIN GENERATED %s -->' % tag, '<!-- END GENERATED %s -->' % tag
+    if b in s and e in s:
+        s = s[:s.index(b) + len(b)] + '\n' + gen + '\n' + s[s.index(e):]
+    else:
+        print('markers for', tag, 'missing')
+open(p, 'w').write(s)
+print('DESIGN.md regenerated')
